@@ -170,7 +170,14 @@ class ChildWorld:
                     kw[k] = [_to_unit_objects(x) for x in v]
                 else:
                     kw[k] = _to_unit_objects(v)
+            real_ts = None
+            if sd.get("pre_t_sample") is not None:
+                # the caller constructs the script with another list of requested times and assigns the real one afterwards
+                real_ts = kw["t_sample"]
+                kw["t_sample"] = [_to_unit_objects(x) for x in sd["pre_t_sample"]]
             self.scripts[sidx] = st.RDScript(system=system, **kw)
+            if real_ts is not None:
+                self.scripts[sidx].t_sample = real_ts
             if sd.get("post_units"):
                 # the caller changes the script's units system after construction (e.g. after loading it): the stored
                 # quantities keep their own units, only the units of the output change
@@ -472,6 +479,10 @@ class ChildWorld:
                     ro.append(float(eng.get_progress()))
                 elif o[0] == "is_complete":
                     ro.append(bool(eng.is_complete()))
+                elif o[0] == "output":
+                    # the caller looks at what has been recorded so far, in the middle of the run
+                    tr_mid = eng.get_output()
+                    ro.append(int(tr_mid.nsamples()))
                 else:
                     raise ValueError("drive: " + o[0])
                 k += 1
@@ -587,6 +598,26 @@ class ChildWorld:
                 # at another state and then at the first state once more
                 f(1.0, [2.0 * float(v) + 1.0 for v in xs])
                 ev["dxdtf_again"] = [float(v) for v in f(2.0, list(xs))]
+        elif name == "set_k":
+            # ["set_k", reaction index, "kf"|"kr", factor]: the caller has exported and used the right-hand side of ITS system
+            # object, then assigns one rate constant of one reaction (only that one); what the kinetics functions and a newly
+            # exported right-hand side say afterwards is the law with the new constant
+            system = self.get_system(sidx)
+            try:
+                f0 = system.make_dxdtf()
+                f0(0.0, [float(v) for v in system.state.value])
+            except Exception:
+                pass
+            r = system.network.reactions[int(op[1])]
+
+            def _sc(v, f):
+                if isinstance(v, dict):
+                    return {k: _sc(x, f) for k, x in v.items()}
+                return self.st.UnitValue(float(v.value) * f, v.units)
+            if op[2] == "kf":
+                r.kf = _sc(r.kf, float(op[3]))
+            else:
+                r.kr = _sc(r.kr, float(op[3]))
         elif name == "apply_reaction":
             # ["apply_reaction", reaction index, position, n]: hand-applied reaction on the RDSystem; becomes the
             # initial state of the next set-up of this script
@@ -622,6 +653,52 @@ class ChildWorld:
             ev["eus"] = {"space": eus["space"], "time": eus["time"], "quantity": eus["quantity"]}
         elif name.startswith("fs_"):
             self.fs_op(ev, op, eng)
+        elif name == "morph":
+            # ["morph", a]: the caller has a live script object (built from description `a`, possibly set up and run
+            # before, its right-hand side exported and evaluated) and now re-assigns its properties, one by one through the
+            # public setters, to the content of this episode's description. From here on that object IS this episode's
+            # script: what it yields must be what a freshly built one yields.
+            st = self.st
+            a_script = self.get_script(int(op[1]))
+            a_sys = a_script.system
+            try:
+                f = a_sys.make_dxdtf()
+                f(0.0, [float(v) for v in a_sys.state.value])
+                from strengths import kinetics
+                kinetics.compute_dstatedt(a_sys)
+            except Exception:
+                pass
+            keep_s, keep_y = self.scripts.pop(sidx, None), self.systems.pop(sidx, None)
+            b_script = self.get_script(sidx)            # freshly built from the description
+            self.scripts.pop(sidx, None)
+            self.systems.pop(sidx, None)
+            b_sys = b_script.system
+            # only what differs is assigned, in the order given (a caller who changes one rate constant assigns that one)
+            for ch in self.case["scripts"][int(op[1])].get("changed", []):
+                if ch[0] == "species":
+                    sa, sb = a_sys.network.species[ch[1]], b_sys.network.species[ch[1]]
+                    if ch[2] == "D":
+                        sa.D = sb.D
+                    else:
+                        sa.density = sb.density
+                elif ch[0] == "reaction":
+                    ra, rb = a_sys.network.reactions[ch[1]], b_sys.network.reactions[ch[1]]
+                    if ch[2] == "kf":
+                        ra.kf = rb.kf
+                    else:
+                        ra.kr = rb.kr
+                elif ch[0] == "state":
+                    a_sys.state = b_sys.state
+                elif ch[0] == "t_sample":
+                    a_script.t_sample = b_script.t_sample
+                elif ch[0] == "rng_seed":
+                    a_script.rng_seed = b_script.rng_seed
+                elif ch[0] == "sampling_interval":
+                    a_script.sampling_interval = b_script.sampling_interval
+            self.scripts[sidx] = a_script
+            self.systems[sidx] = a_sys
+            self.scripts.pop(int(op[1]), None)      # (a later use of description `a` builds new objects)
+            self.systems.pop(int(op[1]), None)
         elif name == "script_touch":
             # the caller goes on using ITS script object after set-up (assigns another system, other sample times): the
             # engine must have taken its own copy. The cached script is dropped so that later set-ups start from a pristine one.
